@@ -59,6 +59,8 @@ def confirm(mdir, name):
         for f in demos:
             os.remove(os.path.join(wt, pkg, f))
         rcs, outs = sh("go test %s-vet=off -count=1 ./internal/... %s" % (overlay, "./cmd/..." if overlay else ""), cwd=wt)
+        if rcs != 0 and "close of closed channel" in outs:     # known flake of the unmodified suite (TestManagerMerging)
+            rcs, outs = sh("go test %s-vet=off -count=1 ./internal/... %s" % (overlay, "./cmd/..." if overlay else ""), cwd=wt)
         print("suite with patch: rc=%d" % rcs)
         if rcs != 0:
             print(outs[-1500:])
